@@ -1,5 +1,5 @@
 (* Model of pkg/command/command.go (Parse, Top, Join, Segments, Covers) and its Spec. *)
-Require Import Base.
+Require Import Base Generated Utf8.
 Local Open Scope N_scope.
 
 Definition sep : N := 47.
@@ -24,7 +24,7 @@ Definition covers (c o : str) : bool :=
 Definition parse (s : str) : res str :=
   if negb (has_prefix top s) then Err 1
   else if (1 <? length s)%nat && (last s 0 =? sep) then Err 2
-  else if negb (str_eqb s (to_lower s)) then Err 3
+  else if negb (lower_fixed s) then Err 3
   else Ok s.
 
 (* Command.Join, command.go:76-96 *)
@@ -41,6 +41,9 @@ Definition join_cmd (c : str) (segs : list str) : str :=
 Definition leading (s : str) : Prop := exists s0, s = sep :: s0.
 Definition seg_prefix (a b : list str) : Prop := exists t, b = a ++ t.
 Definition no_trailing (s : str) : Prop := s = top \/ last s 0 <> sep.
-Definition no_upper (s : str) : Prop := Forall (fun c => ~ (65 <= c <= 90)) s.
+(* "no upper-case letters" is strings.ToLower(s) == s: s is valid UTF-8 and none of its code points is one
+   that unicode.ToLower maps elsewhere (Generated.lower_changes); on ASCII text: no byte in 'A'..'Z' *)
+Definition lower_changed (r : N) : Prop := exists lo hi, In (lo, hi) lower_changes /\ lo <= r <= hi.
+Definition no_upper (s : str) : Prop := exists rs, runes s = Some rs /\ Forall (fun r => ~ lower_changed r) rs.
 Definition valid (s : str) : Prop := leading s /\ no_trailing s /\ no_upper s.
 Definition good_seg (g : str) : Prop := g <> [] /\ ~ In sep g.
